@@ -4,7 +4,7 @@
 cd /verif
 ids=${@:-$(ls seeded)}
 for d in $ids; do
-  id=${d%-*}
+  id=${d%-*}; id=${id%b}
   p=seeded/$d/patch.diff
   [ -f seeded/$d/patch_on_current.diff ] && p=seeded/$d/patch_on_current.diff
   git -C /repo diff --quiet || { echo "/repo dirty"; exit 2; }
